@@ -29,10 +29,12 @@ const c23Contract = `access(all) contract N {
   access(all) resource Coll {
     access(mapping Identity) var items: @[Item]
     access(mapping Identity) var map: @{Int: Item}
+    access(mapping Identity) var smap: @{String: Item}
     access(all) var opt: @Coll?
     init(_ n: Int, _ t: Int) {
       self.items <- []
       self.map <- {}
+      self.smap <- {}
       self.opt <- nil
       var i = 0
       while i < n {
@@ -50,17 +52,22 @@ const c23Contract = `access(all) contract N {
     access(all) fun putMap(_ k: Int, _ i: @Item) { let old <- self.map.insert(key: k, <- i); destroy old }
     access(all) fun setOpt(_ c: @Coll?) { let old <- self.opt <- c; destroy old }
     access(all) fun takeOpt(): @Coll? { let o <- self.opt <- nil; return <- o }
+    access(all) fun putS(_ k: String, _ i: @Item) { let old <- self.smap.insert(key: k, <- i); destroy old }
+    access(all) fun takeS(_ k: String): @Item? { return <- self.smap.remove(key: k) }
     access(all) fun swapFirst() { if self.items.length > 0 && self.map[0] != nil { let a <- self.items.remove(at: 0); let b <- self.map.insert(key: 0, <- a); self.items.insert(at: 0, <- b!) } }
   }
   access(all) struct Box {
     access(mapping Identity) var a: [Int]
     access(mapping Identity) var b: [[Int]]
     access(mapping Identity) var d: {Int: [Int]}
+    access(mapping Identity) var sd: {String: [Int]}
     access(all) var inner: [Box]
     init(_ n: Int, _ m: Int) {
       self.a = []
       self.b = []
       self.d = {}
+      self.sd = {"short": [1]}
+      if m >= 40 { self.sd[N.longKey(0)] = [0] }
       self.inner = []
       var i = 0
       while i < n { self.a.append(i); i = i + 1 }
@@ -76,6 +83,8 @@ const c23Contract = `access(all) contract N {
     access(all) fun clearD() { self.d = {} }
     access(all) fun b0AppendAll(_ xs: [Int]) { if self.b.length > 0 { self.b[0].appendAll(xs) } }
   }
+  // a ~400-character key: too large to be stored inline in a dictionary
+  access(all) view fun longKey(_ i: Int): String { var s = "k".concat(i.toString()); while s.length < 400 { s = s.concat("0123456789") }; return s }
   access(all) fun mkColl(_ n: Int, _ t: Int): @Coll { return <- create Coll(n, t) }
   access(all) fun mkItem(_ id: Int, _ t: Int): @Item { return <- create Item(id, t) }
   access(all) fun itemOr(_ x: @Item?, _ id: Int): @Item { if let y <- x { return <- y }; return <- create Item(id, 1) }
@@ -145,6 +154,10 @@ var c23CollOps = map[string]string{
 	"putMapReplace":   `r.putMap(0, <- N.mkItem(60, 2))`,
 	"putMapNew":       `r.putMap(1000, <- N.mkItem(61, 2))`,
 	"putMapBig":       `r.putMap(5, <- N.mkItem(52, 150))`,
+	"putLongKey":      `r.putS(N.longKey(1), <- N.mkItem(53, 2))`,
+	"putLongKeyBig":   `r.putS(N.longKey(1), <- N.mkItem(54, 150))`,
+	"takeLongKey":     `let x <- r.takeS(N.longKey(1)); destroy x`,
+	"directLongKey":   `let old <- r.smap.insert(key: N.longKey(2), <- N.mkItem(55, 2)); destroy old; let y <- r.smap.remove(key: N.longKey(2)); destroy y`,
 	"setOptSmall":     `r.setOpt(<- N.mkColl(1, 1))`,
 	"setOptBig":       `r.setOpt(<- N.mkColl(40, 3))`,
 	"takeOptDestroy":  `let x <- r.takeOpt(); destroy x`,
@@ -177,6 +190,12 @@ var c23BoxOps = map[string]string{
 	"popInner":    `r.popInner()`,
 	"clearInner":  `r.clearInner()`,
 	"dClear":      `r.clearD()`,
+	"sdInsertLong": `r.sd[N.longKey(1)] = [1, 2]`,
+	"sdOverwriteLong": `r.sd[N.longKey(1)] = N.ints(150)`,
+	"sdRemoveLong": `r.sd.remove(key: N.longKey(1))`,
+	"sdRemoveLong0": `r.sd.remove(key: N.longKey(0))`,
+	"sdRemoveShort": `r.sd.remove(key: "short")`,
+	"sdNilLong":    `r.sd[N.longKey(1)] = nil`,
 }
 
 // c23Source returns the transaction for an operation label, or "" if the
